@@ -1387,6 +1387,38 @@ fn server_error_path(w: &World, tran: &ClientTransaction<&Key>, req: &Message<Ve
         if check_conformance(w, "badtime-response", &resp, Prefix::RequestMac(&accepted_mac)).is_none() {
             return;
         }
+        // A BADTIME response is signed (RFC 8945 section 5.2.3): the server
+        // time it carries is worth something only if the MAC holds. Tampered
+        // with on its way back - a bit of the MAC or of the server time in
+        // the other data flipped, the MAC cut off altogether, another key
+        // named - it is a forgery like any other and must not be reported as
+        // the server's verdict (nor accepted).
+        if sim::chance("badtime.tampered_first", 1, 2) {
+            let forged = match sim::draw("badtime.tamper", 4) {
+                0 => mutate(&resp, &Mutation::MacFlip),
+                1 => {
+                    let mut f = resp.clone();
+                    let n = f.len();
+                    f[n - 1] ^= 1 << sim::draw("badtime.other_bit", 8);
+                    f
+                }
+                2 => mutate(&resp, &Mutation::MacShorten(0)),
+                _ => mutate(&resp, &Mutation::KeyNameOther),
+            };
+            sim::stat("fault.badtime_response_tampered");
+            let mut m = Message::from_octets(forged).unwrap();
+            match tran.answer(&mut m, t48(w.now_c(1))) {
+                Err(ValidationError::ServerBadTime { .. }) => {
+                    viol("soundness", "client-took-a-forged-badtime-response-for-the-servers".into(), "a BADTIME response that was tampered with in transit (MAC, other data or key name) was reported as ServerBadTime: the server time in it is not authenticated".into());
+                    return;
+                }
+                Ok(_) => {
+                    viol("soundness", "client-accepted-a-forged-badtime-response".into(), "a BADTIME response that was tampered with in transit was accepted".into());
+                    return;
+                }
+                Err(_) => {}
+            }
+        }
         // The client must report the server's view.
         let mut m = Message::from_octets(resp.clone()).unwrap();
         match tran.answer(&mut m, t48(w.now_c(1))) {
